@@ -46,3 +46,46 @@ class LoggingIter:
 
 
 ITER = LoggingIter()
+
+
+class Trap:
+    """an existing object a document can name, standing for any object reachable in an imported module: looking up one of
+    its attributes is recorded as 'objgetattr', calling what was looked up - or any protocol method a converter would use
+    on text or numbers - as 'call' (C04: an object selected by the document is never called or mutated)"""
+    def __getattr__(self, name):
+        LOG.append(('objgetattr', name))
+        if name.startswith('__') and name.endswith('__'):
+            raise AttributeError(name)
+
+        def method(*a, **k):
+            LOG.append(('call', 'TRAP.' + name))
+            return self
+        return method
+
+    def _used(name, result):
+        def f(self, *a, **k):
+            LOG.append(('call', 'TRAP.' + name))
+            if isinstance(result, type) and issubclass(result, Exception):
+                raise result(name)
+            return result
+        f.__name__ = name
+        return f
+    __call__ = _used('__call__', 'called')
+    __complex__ = _used('__complex__', 1j)
+    __int__ = _used('__int__', 1)
+    __index__ = _used('__index__', 1)
+    __float__ = _used('__float__', 1.0)
+    __len__ = _used('__len__', 0)
+    __bool__ = lambda self: True             # truth-testing the object is not recorded (it would fall back to __len__)
+    __iter__ = _used('__iter__', TypeError)
+    __contains__ = _used('__contains__', False)
+    __getitem__ = _used('__getitem__', IndexError)
+    __setitem__ = _used('__setitem__', None)
+    __delitem__ = _used('__delitem__', None)
+    __setattr__ = _used('__setattr__', None)
+    __delattr__ = _used('__delattr__', None)
+    __setstate__ = _used('__setstate__', None)
+    del _used
+
+
+TRAP = Trap()
